@@ -14,7 +14,15 @@ import z3
 from ..core import Unsupported
 from .values import (SBool, SInt, SReal, SAtom, Sym, NAN, POW, SQRT, TAN, LOG, PI, Axioms,
                      rterm, iterm, bterm, nanflag, zor, znot, to_frac, is_concrete_num,
-                     is_intlike, is_num, fresh, str_code)
+                     is_intlike, is_num, fresh, str_code, infsign)
+
+
+def _fin(f):
+    return isinstance(f, int) and f == 0
+
+
+def _iz(f):
+    return z3.IntVal(0) if (isinstance(f, int) and f == 0) else f
 
 
 # ------------------------------------------------------------ scalar helpers
@@ -54,7 +62,9 @@ def ite_val(cond, a, b):
         nan = False
     else:
         nan = z3.If(cond, _zb(na), _zb(nb))
-    return SReal(z3.If(cond, rterm(a), rterm(b)), nan)
+    ia, ib = infsign(a), infsign(b)
+    inf = 0 if (_fin(ia) and _fin(ib)) else z3.If(cond, _iz(ia), _iz(ib))
+    return SReal(z3.If(cond, rterm(a), rterm(b)), nan, inf)
 
 
 def _zb(f):
@@ -85,6 +95,9 @@ def scalar_binop(I, op, a, b):
             raise Unsupported("floor division / modulo by a possibly negative number")
         return SInt(x / y) if op == "FloorDiv" else SInt(x % y)
     x, y = rterm(a), rterm(b)
+    ia, ib = infsign(a), infsign(b)
+    if not _fin(ia) or not _fin(ib):
+        return _inf_arith(I, op, a, b, x, y, nan, _iz(ia), _iz(ib))
     if op == "Add":
         return SReal(x + y, nan)
     if op == "Sub":
@@ -109,6 +122,23 @@ def scalar_binop(I, op, a, b):
             return SInt(z3.ToInt(x / y))
         raise Unsupported("real floor division")
     raise Unsupported(f"binop {op}")
+
+
+def _inf_arith(I, op, a, b, x, y, nan, ia, ib):
+    """IEEE rules for +-inf in sums / differences / scaling by a non-zero finite number"""
+    if op in ("Add", "Sub"):
+        jb = ib if op == "Add" else -ib
+        clash = z3.And(ia != 0, jb != 0, ia != jb)          # inf - inf -> NaN
+        inf = z3.If(ia != 0, ia, jb)
+        val = (x + y) if op == "Add" else (x - y)
+        return SReal(val, zor(nan, clash), z3.If(clash, 0, inf))
+    if op == "Mult":
+        sx_ = z3.If(ia != 0, ia, z3.If(x > 0, 1, z3.If(x < 0, -1, 0)))
+        sy_ = z3.If(ib != 0, ib, z3.If(y > 0, 1, z3.If(y < 0, -1, 0)))
+        anyinf = z3.Or(ia != 0, ib != 0)
+        zero_times_inf = z3.And(anyinf, z3.Or(z3.And(ia == 0, x == 0), z3.And(ib == 0, y == 0)))
+        return SReal(x * y, zor(nan, zero_times_inf), z3.If(z3.And(anyinf, z3.Not(zero_times_inf)), sx_ * sy_, 0))
+    raise Unsupported(f"operation {op} on a possibly infinite value")
 
 
 def _concrete_binop(op, a, b):
@@ -172,7 +202,8 @@ def scalar_unop(I, op, a):
             return -a
         if isinstance(a, SInt):
             return SInt(-a.term)
-        return SReal(-rterm(a), nanflag(a))
+        ia = infsign(a)
+        return SReal(-rterm(a), nanflag(a), 0 if _fin(ia) else -ia)
     if op == "UAdd":
         return a
     if op == "Not":
@@ -207,7 +238,8 @@ def scalar_abs(a):
     if isinstance(a, SInt):
         return SInt(z3.If(a.term >= 0, a.term, -a.term))
     x = rterm(a)
-    return SReal(z3.If(x >= 0, x, -x), nanflag(a))
+    ia = infsign(a)
+    return SReal(z3.If(x >= 0, x, -x), nanflag(a), 0 if _fin(ia) else z3.If(ia != 0, 1, 0))
 
 
 def scalar_sqrt(I, a):
@@ -248,6 +280,9 @@ class SArray(Sym):
     # -- reading
     def snap(self):
         """pure closure of the current contents"""
+        hook = getattr(self, "snap_hook", None)
+        if hook is not None:
+            return hook()
         if self.parent is not None:
             ps = self.parent.snap()
             tp = self.to_parent
